@@ -286,6 +286,79 @@ theorem relTail_spec (hf : PyVal → String) (ctx_hash : PyVal → Except CondEr
           · simp [bind_apply, memoIsDict_apply, Rbacx.Py.truthy_bool, pure_apply, memoContains_some _ _ _ hk, hfind, tryCatch_apply, callChecker_some, hg,
               hl, Rbacx.Py.boolOf, memoSet_some _ _ _ _ hk, memoPut_absent _ _ _ hfind]
 
+/-- the inner function of the model's `relQuery` (Model/Cond.lean), by name -/
+def relBuild (env : PyVal) (relation subject resource : String) (localCtx : PyVal) : Except CondErr (Option RelKey) :=
+  if relation == "" then .ok Option.none
+  else do
+    let base ← dictOf ((PyVal.por (env.get "context") (.dict [])).get "_rebac")
+    let merged ← if localCtx.truthy then (do let l ← dictOf localCtx; Pure.pure (dictUpdate base l)) else Pure.pure base
+    Pure.pure (some { subject, relation, resource, ctx := .dict merged })
+
+theorem relQuery_eq (o : Oracle) (expr env : PyVal) :
+    relQuery o expr env =
+      match expr with
+      | .str s => relBuild env s (canonSubject o env .none) (canonResource o env .none) .none
+      | .dict _ => relBuild env (o.pyStr (PyVal.por (expr.get "relation") (.str ""))) (canonSubject o env (expr.get "subject"))
+          (canonResource o env (expr.get "resource")) (expr.get "ctx")
+      | _ => .ok Option.none := by
+  cases expr <;> rfl
+
+/-- the statements of the `rel` branch from `if not relation:` to the end, as harness/pytolean_rel.py emits them -/
+def relRest (ctx_hash : PyVal → Except CondErr PyVal) (raw : PyVal → PyVal → PyVal → Except CondErr PyVal) (rel_checker : Checker)
+    (eval_loop env subject_str relation resource_str local_ctx : PyVal) : M PyVal :=
+  if ((Rbacx.Py.pnot relation)).truthy then
+    ((pure (PyVal.bool false)))
+  else
+    (bindE (getE env (PyVal.str "context")) fun t4 =>
+    let env_ctx := (PyVal.por t4 (PyVal.dict []))
+    bindE (getE env_ctx (PyVal.str "_rebac")) fun t5 =>
+    bindE (dictE (PyVal.por t5 (PyVal.dict []))) fun t6 =>
+    let rebac_ctx := t6
+    if (local_ctx).truthy then
+      (bindE (dictE local_ctx) fun t7 =>
+      bindE (updateE rebac_ctx t7) fun t8 =>
+      let rebac_ctx := t8
+      relTail ctx_hash raw rel_checker eval_loop subject_str relation resource_str rebac_ctx)
+    else
+      (relTail ctx_hash raw rel_checker eval_loop subject_str relation resource_str rebac_ctx))
+
+theorem por_dict_isDict (v : PyVal) (h : v.truthy = false ∨ v.isDict = true) : (PyVal.por v (.dict [])).isDict = true := by
+  unfold PyVal.por
+  rcases h with h | h
+  · simp [h, PyVal.isDict]
+  · split
+    · exact h
+    · rfl
+
+theorem relRest_spec (hf : PyVal → String) (ctx_hash : PyVal → Except CondErr PyVal) (hhash : ∀ c, ctx_hash c = .ok (.str (hf c)))
+    (raw : PyVal → PyVal → PyVal → Except CondErr PyVal) (hraw : ∀ r l t, raw r l t = .ok r) (f : Checker) (loop : PyVal)
+    (env : PyVal) (henv : EnvOk env) (s r o' : String) (lc : PyVal)
+    (h1 : noSeq ((PyVal.por (env.get "context") (.dict [])).get "_rebac") = true) (h2 : noSeq lc = true) (st : St) :
+    relRest ctx_hash raw f loop env (.str s) (.str r) (.str o') lc st = relStep hf f (relBuild env r s o' lc) st := by
+  unfold relRest relBuild
+  have hp : (Rbacx.Py.pnot (.str r)).truthy = (r == "") := by
+    simp [Rbacx.Py.pnot, PyVal.truthy, bne, Bool.not_not]
+  rw [hp]
+  by_cases hr : (r == "") = true
+  · simp only [hr, if_true]; rfl
+  · simp only [hr, Bool.false_eq_true, if_false]
+    rw [getE_dict env "context" henv.dict, bindE_ok]
+    rw [getE_dict _ "_rebac" (por_dict_isDict _ henv.context), bindE_ok, dictE_por _ h1]
+    cases hb : dictOf ((PyVal.por (env.get "context") (.dict [])).get "_rebac") with
+    | error e => rfl
+    | ok base =>
+      simp only [Except.map, bindE_ok]
+      by_cases hl : lc.truthy = true
+      · simp only [hl, if_true]
+        rw [dictE_truthy lc h2 hl]
+        cases hd : dictOf lc with
+        | error e => rfl
+        | ok l =>
+          simp only [Except.map, bindE_ok, updateE]
+          exact relTail_spec hf ctx_hash hhash raw hraw f loop { subject := s, relation := r, resource := o', ctx := .dict (dictUpdate base l) } st
+      · simp only [hl, Bool.false_eq_true, if_false]
+        exact relTail_spec hf ctx_hash hhash raw hraw f loop { subject := s, relation := r, resource := o', ctx := .dict base } st
+
 /-! ### … and that is the model's memoised `rel` node (`evalRelM`, Model/RelMemo.lean) -/
 
 /-- the model's checker that an outcome function stands for: the truth value of what `check` returns, `none` when it raises -/
